@@ -33,6 +33,9 @@ type schedCase struct {
 	Sizes    []int  `json:"sizes,omitempty"`
 	WithEOF  bool   `json:"with_eof,omitempty"`
 	Seekable bool   `json:"seekable,omitempty"`
+	// Lead bytes precede the input in a seekable source that is handed over
+	// positioned just after them (a font embedded in a larger file)
+	Lead []byte `json:"lead,omitempty"`
 }
 
 func (c *schedCase) reader() io.Reader {
@@ -42,7 +45,9 @@ func (c *schedCase) reader() io.Reader {
 	case "onebyte":
 		return &iofault.Chunks{Data: c.Data, Sizes: []int{1}, WithEOF: c.WithEOF}
 	case "seekable":
-		return &iofault.Seekable{Data: c.Data, Sizes: c.Sizes}
+		sk := &iofault.Seekable{Data: append(append([]byte{}, c.Lead...), c.Data...), Sizes: c.Sizes}
+		sk.Seek(int64(len(c.Lead)), io.SeekStart)
+		return sk
 	default:
 		return &iofault.Chunks{Data: c.Data, Sizes: c.Sizes, WithEOF: c.WithEOF}
 	}
@@ -83,7 +88,7 @@ func (c *schedCase) describe() string {
 	case "onebyte":
 		return fmt.Sprintf("one-byte reads (EOF with data: %v)", c.WithEOF)
 	case "seekable":
-		return fmt.Sprintf("seekable source with read sizes %v", c.Sizes)
+		return fmt.Sprintf("seekable source positioned at offset %d with read sizes %v", len(c.Lead), c.Sizes)
 	}
 	return fmt.Sprintf("read sizes %v (EOF with data: %v)", c.Sizes, c.WithEOF)
 }
@@ -180,7 +185,7 @@ func genSizes(t *rapid.T) []int {
 func TestP2Chunks(t *testing.T) {
 	rec := ev.New("C12", "chunks")
 	defer rec.Finish(t)
-	rec.Rule("the same inputs under rapid-drawn chunk-size sequences (sizes 1..700, with 511/512/513 and tiny sizes), with and without data delivered together with EOF, and - for type1.Read - through a source that supports seeking vs one that does not. Non-trivial: >= 2 reads; distinct by (input, schedule).")
+	rec.Rule("the same inputs under rapid-drawn chunk-size sequences (sizes 1..700, with 511/512/513 and tiny sizes), with and without data delivered together with EOF, and - for type1.Read - through a source that supports seeking (positioned at offset 0 or, as for a font embedded in a larger file, just after 1-40 unrelated lead bytes) vs one that does not. Non-trivial: >= 2 reads; distinct by (input, schedule).")
 	ev.SetupRapid(12000, 480000)
 	rapid.Check(t, func(t *rapid.T) {
 		target, data, label := genInput(t)
@@ -188,11 +193,16 @@ func TestP2Chunks(t *testing.T) {
 		if target == "type1.Read" && rapid.Bool().Draw(t, "seekable") {
 			c.Kind = "seekable"
 			label += "+seekable"
+			if rapid.Bool().Draw(t, "embedded") {
+				lead := rapid.SampledFrom([]string{"%!PS-Adobe-3.0\n/x 1 def\n", "\x80\x01\x05\x00\x00\x00hello", "\x00", "stream\r\n", "12 0 obj << /Length1 700 >>\nstream\n"}).Draw(t, "lead")
+				c.Lead = []byte(lead)[:rapid.IntRange(1, len(lead)).Draw(t, "leadlen")]
+				label += "+offset"
+			}
 		}
 		rec.Eval(1)
 		rec.Class(label)
 		if len(data) > c.Sizes[0] {
-			rec.NonTrivialHash(ev.Hash(string(data) + fmt.Sprint(c.Sizes, c.WithEOF, c.Kind)))
+			rec.NonTrivialHash(ev.Hash(string(data) + fmt.Sprint(c.Sizes, c.WithEOF, c.Kind, len(c.Lead))))
 		}
 		if msg := ev.Safe(func() string { return check(c) }); msg != "" {
 			rec.Fail(t, msg, c)
